@@ -159,6 +159,7 @@ let dispatch (op : string) (args : jv list) : jv =
              jlist (fun p -> let p = str_arg p in
                       JList [JStr p; jbool (contains ops h p);
                              (match lookup ops h p with Ok d -> JStr d.d_name | Err _ -> JNull)]) probes]
+  | "fromdict", [d] -> of_res jgraph (fromdict ops d)
   | "close", [a; b; r; t] ->
       jbool (close_graph ops (num_arg r) (num_arg t) (graph_arg a) (graph_arg b))
   | _ -> failwith ("unknown op " ^ op)
